@@ -30,8 +30,10 @@ struct PluginS { std::string name; bool enabled, err; };
 struct Prog {
     int repeat; bool reverse; bool shuffle; long seed; bool runIgnored;
     std::vector<long> draws; bool haveDraws; bool api; std::string list;
+    bool early;      // api mode: the options are given to the registry BEFORE the tests are registered
+    bool nest;       // every test body first drives a complete run of another registry (as TestTestingFixture does)
     std::vector<FilterS> gf, nf; std::vector<PluginS> plugins; std::vector<TestS> tests;
-    Prog() : repeat(1), reverse(false), shuffle(false), seed(1), runIgnored(false), haveDraws(false), api(false), list("none") {}
+    Prog() : repeat(1), reverse(false), shuffle(false), seed(1), runIgnored(false), haveDraws(false), api(false), list("none"), early(false), nest(false) {}
 };
 static Prog* P;
 static const char* PHN[3] = {"setup", "body", "teardown"};
@@ -48,6 +50,22 @@ static std::string chars(const std::string& s)
     return o + "]";
 }
 
+// A run inside a run: what TestTestingFixture does - a complete run of another registry, with its own result and output, driven from
+// inside a test body.  When it returns the outer run is where it was (TestRun.tla: no variable changes).
+static int nestedFails = 0;
+static void nestedBody() { CHECK_TRUE_LOCATION(nestedFails == 0, "CHECK", "nested", NULLPTR, "Nested.cpp", 3); }
+static void nestedRun(int t)
+{
+    TestRegistry inner;
+    ExecFunctionTestShell shell; ExecFunctionWithoutParameters fn(nestedBody);
+    shell.setGroupName("Nested"); shell.setTestName("inner"); shell.setFileName("Nested.cpp"); shell.setLineNumber(1);
+    shell.testFunction_ = &fn;
+    inner.addTest(&shell);
+    StringBufferTestOutput o; TestResult r(o);
+    nestedFails = t % 2;        // the inner test fails for odd t: a failure of the inner run is the inner run's
+    inner.runAllTests(r);
+}
+
 static void runPhase(int t, int p)
 {
     const PhaseS& ph = P->tests[(size_t) t - 1].ph[p];
@@ -62,6 +80,7 @@ static void runPhase(int t, int p)
     const char* file = place >= 2 ? "Helper.cpp" : fileNames[(size_t) t - 1].c_str();
     size_t line = place == 0 || place == 2 ? (size_t) (1000 * t + 10 * (p + 1)) : place == 1 ? (size_t) (1000 * t - 10 * (p + 1)) : (size_t) (5 + p + 1);
     const std::string& ev = evNow(ph);
+    if (P->nest && p == 1) nestedRun(t);
     if (ev == "ok") {
         CHECK_TRUE_LOCATION(true, "CHECK", "scripted", NULLPTR, file, line);
     } else if (ev == "failCpp") {
@@ -247,7 +266,7 @@ static int runThroughApi(TestRegistry& registry)
 {
     registry.setGroupFilters(poolFilters(0, P->gf));
     registry.setNameFilters(poolFilters(1, P->nf));
-    if (P->runIgnored) registry.setRunIgnored();
+    if (P->runIgnored && !P->early) registry.setRunIgnored();
     UtestShell::setRethrowExceptions(false);
     SetPointerPlugin pPlugin(DEF_PLUGIN_SET_POINTER);
     registry.installPlugin(&pPlugin);
@@ -352,6 +371,7 @@ static void runProgram()
         idxByFormatted[std::string("TEST(") + t.g + ", " + t.n + ")"] = (int) i + 1;
         idxByFormatted[std::string("IGNORE_TEST(") + t.g + ", " + t.n + ")"] = (int) i + 1;
     }
+    if (P->api && P->early && P->runIgnored) registry.setRunIgnored();      // options first, tests afterwards: the order must not matter
     for (size_t i = shells.size(); i > 0; i--) registry.addTest(shells[i - 1]);   // addTest prepends: list order = given order
     std::vector<RecPlugin*> plugins;
     for (size_t i = 0; i < P->plugins.size(); i++) plugins.push_back(new RecPlugin(P->plugins[i].name, P->plugins[i].err));
@@ -425,7 +445,9 @@ int main(int argc, char** argv)
         else if (f[0] == "cfg" && f.size() >= 6) {
             P->repeat = atoi(f[1].c_str()); P->reverse = f[2] == "1"; P->shuffle = f[3] != "-"; P->seed = P->shuffle ? atol(f[3].c_str()) : 1;
             P->runIgnored = f[4] == "1";
-            P->api = f.size() > 6 && f[6] == "api";
+            P->api = f.size() > 6 && (f[6] == "api" || f[6] == "apiE");
+            P->early = f.size() > 6 && f[6] == "apiE";
+            P->nest = f.size() > 8 && f[8] == "nest";
             if (f.size() > 7 && !f[7].empty()) P->list = f[7];
             if (f[5] != "-") { P->haveDraws = true; std::vector<std::string> d = vh_split(f[5], ','); for (size_t i = 0; i < d.size(); i++) if (!d[i].empty()) P->draws.push_back(atol(d[i].c_str())); }
         }
